@@ -684,7 +684,8 @@ def run_df(case):
         # ---------------------------------------------------------- per class
         if name == "DenseBreedingValueMatrix":
             tc = ("Täxon" if custom else "taxa") if "taxa" in opt else None
-            gc = ("Grüppe" if custom else "taxa_grp") if "taxa_grp" in opt else None
+            gc = ("Grüppe" if custom else "taxa_grp") if ("taxa_grp" in opt or case.get("default_cols")) else None
+            # (default_cols: the groups are absent but both sides use the default column name, so the column is written empty)
             unscale = bool(case.get("unscale"))
             wkw = dict(taxa_col=tc, taxa_grp_col=gc, unscale=unscale,
                        trait_cols=[str(x) for x in obj.trait] if (case.get("trait_seq") and obj.trait is not None) else "all")
@@ -712,7 +713,8 @@ def run_df(case):
                     return True, default, "unscaled breeding values differ after the round trip (max abs diff %.3g)" % float(numpy.max(numpy.abs(a - b)))
         elif name == "DenseMolecularCoancestryMatrix":
             tc = "Täxon" if custom else "taxa"
-            gc = ("Grüppe" if custom else "taxa_grp") if "taxa_grp" in opt else None
+            gc = ("Grüppe" if custom else "taxa_grp") if ("taxa_grp" in opt or case.get("default_cols")) else None
+            # (default_cols: the groups are absent but both sides use the default column name, so the column is written empty)
             if via == "pandas":
                 back = cls.from_pandas(obj.to_pandas(taxa_col=tc, taxa_grp_col=gc), taxa_col=tc, taxa_grp_col=gc)
             else:
@@ -1348,6 +1350,8 @@ def gen_df(rnd, tier):
                     case["trait_seq"] = False
             if name in MAPS:
                 case["units"] = rnd.choice(["cM", "M", "centiMorgans", "Morgans"])
+            if name == "DenseMolecularCoancestryMatrix" and "taxa_grp" not in sp["opt"] and i % 3 != 2:
+                case.update(custom=False, default_cols=True)      # absent groups written and read with the default column names
             yield case
         # known classes, each in its own branch
         for via in ("pandas", "csv"):
